@@ -366,7 +366,7 @@ def ev(node, env):
             return (max if node.func.id == 'max' else min)(args)
         if node.func.id == 'abs' and len(args) == 1:
             return abs(args[0])
-        if node.func.id == 'int' and len(args) == 1:
+        if node.func.id == 'int' and len(args) == 1 and isinstance(args[0], (int, float)) and not isinstance(args[0], str):
             return int(args[0])
         if node.func.id in ('max', 'min') and len(args) == 1 and isinstance(args[0], (list, tuple, set, frozenset, dict)) and len(args[0]) > 0:
             return (max if node.func.id == 'max' else min)(args[0])
@@ -561,8 +561,10 @@ def ev(node, env):
         i = ev(node.slice, env)
         if isinstance(b, (list, tuple, bytes, bytearray)) and isinstance(i, int) and -len(b) <= i < len(b):
             return b[i]
-        if isinstance(b, (list, tuple, bytes, bytearray, str)) and isinstance(i, int) and env.get('__try__'):
-            raise PyRaise('IndexError')
+        if isinstance(b, (list, tuple, bytes, bytearray, str)) and isinstance(i, int):
+            if isinstance(b, str) and -len(b) <= i < len(b):
+                return b[i]
+            raise PyRaise('IndexError')          # inside a try the handlers see it; outside it leaves the function as it would in Python
         if isinstance(b, dict):
             if i not in b and env.get('__try__'):
                 raise PyRaise('KeyError')
